@@ -31,7 +31,10 @@ Copy(out, off, n) == IF n = 0 THEN out ELSE Copy(Append(out, out[Len(out) - off 
 
 \* state s = [ok, out, rep, lp, huf, tabs]; tabs = <<ll, of, ml>> with "none" | "predef" | "rle" | "fse"
 \* s.dict is the dictionary content in front of the output (empty without a dictionary): a match may start in it
-\* (C09; the window is never exceeded by the small frames enumerated here)
+\* (C09).  The dictionary stays reachable only while the data decoded so far does not exceed the window
+\* (RFC 8878 section 5: "as long as the amount of data decoded from this frame is less than or equal to Window_Size");
+\* the frames enumerated here are serialised with the smallest window, Win.
+Win == 1024
 RECURSIVE ExecSeqs(_, _, _, _)
 ExecSeqs(b, i, s, lits) ==
     IF ~s.ok THEN s
@@ -40,7 +43,7 @@ ExecSeqs(b, i, s, lits) ==
          IN IF s.lp + q.ll - 1 > Len(lits) THEN [s EXCEPT !.ok = FALSE]
             ELSE LET out1 == s.out \o SubSeq(lits, s.lp, s.lp + q.ll - 1)
                      r == RepStep(q.ofv, q.ll, s.rep)
-                 IN IF r[1] <= 0 \/ r[1] > Len(out1) + Len(s.dict) THEN [s EXCEPT !.ok = FALSE]
+                 IN IF r[1] <= 0 \/ r[1] > Len(out1) + Len(s.dict) \/ (r[1] > Len(out1) /\ Len(out1) > Win) THEN [s EXCEPT !.ok = FALSE]
                     ELSE LET whole == Copy(s.dict \o out1, r[1], q.ml)
                          IN ExecSeqs(b, i + 1, [s EXCEPT !.out = SubSeq(whole, Len(s.dict) + 1, Len(whole)), !.rep = r[2], !.lp = s.lp + q.ll], lits)
 
@@ -167,6 +170,13 @@ FramesDict ==
     \* the dictionary's repeat offsets and tables as the starting state
     {[hdr |-> H0, blocks |-> <<[Default EXCEPT !.seqs = q, !.modes = <<a, a, a>>, !.lit = l, !.lbytes = LitBytes(8)]>>] :
         q \in SeqMenus, a \in {"repeat", "predef", "fse"}, l \in {"raw", "tree1", "tree4", "huf1"}} \cup
+    \* the dictionary is reachable while the decoded data does not exceed the window: exactly one window decoded (by a
+    \* compressed block: 4 literals and an overlapping match) and a little less.  Beyond the window the property is silent
+    \* (no conforming compressor reaches into the dictionary there; this decoder happens to allow it when the data came
+    \* from raw / RLE blocks), so those frames are not enumerated.
+    UNION {{[hdr |-> H0, blocks |-> <<[Default EXCEPT !.lbytes = LitBytes(4), !.seqs = << [ll |-> 4, ofv |-> 4, ml |-> n - 4] >>],
+                                       DictBlock(p, p + n + d, 4, "predef")>>] :
+               p \in {x \in {0, 1, 2, 3} : n + x <= Win}, d \in {1, DL}} : n \in {1021, 1022, 1023, 1024}} \cup
     \* a second block after the dictionary was used
     {[hdr |-> H0, blocks |-> <<DictBlock(2, 2 + DL, 6, "repeat"), b>>] : b \in {x \in Follow : Wf(x)}}
 RowD(f) == LET m == MeaningD(f, DictContent, DictRep) IN [frame |-> f, ok |-> m.ok, content |-> m.out, rep |-> m.rep]
